@@ -37,6 +37,7 @@ type paReal struct {
 	err    string
 	panic  string
 	anchor []byte // CertChain[1] of the SOD verification
+	rejectedByCombined string // the same trust anchors as a CombinedCertPool of one pool per anchor: error, "" if accepted / not run
 	poolExtra string // master list: a certificate in the returned pool that is not in the signed list
 }
 
@@ -125,6 +126,28 @@ func paRun(it paItem) (res paReal) {
 	res.accept = err == nil && r != nil && r.Success
 	if r != nil && r.Sod != nil && len(r.Sod.CertChain) > 1 {
 		res.anchor = r.Sod.CertChain[1]
+	}
+	// the trust store as the production default builds it: a CombinedCertPool (one pool per master list; here one per
+	// anchor, in the same order). The verdict belongs to the SET of anchors, not to the container: an acceptance by
+	// either counts as an acceptance (C01), a rejection by either as a rejection (C09).
+	if it.Class != "mutant" && len(it.Trust) >= 2 {
+		comb := &cms.CombinedCertPool{}
+		for _, t := range it.Trust {
+			one := &cms.GenericCertPool{}
+			if err := one.Add(t); err != nil {
+				return
+			}
+			comb.AddCertPool(one)
+		}
+		r2, err2 := passiveauth.PassiveAuth(doc, comb)
+		if err2 == nil && r2 != nil && r2.Success {
+			res.accept = true
+		} else {
+			res.rejectedByCombined = fmt.Sprintf("%v", err2)
+			if res.rejectedByCombined == "" || err2 == nil {
+				res.rejectedByCombined = "no success"
+			}
+		}
 	}
 	return
 }
@@ -513,6 +536,9 @@ func C09(c *core.Ctx) {
 		rp := map[string]any{"name": it.Name, "keyspec": it.KS, "note": it.Note, "real_error": v.real.err, "panic": v.real.panic, "sod": core.Hex(it.SOD)}
 		if !v.genuine {
 			notGenuineFacts++
+		}
+		if v.real.accept && v.real.rejectedByCombined != "" && (v.genuine || it.Class == "genuine") {
+			c.Violation("C09:rejects-genuine-with-combined-trust-store:"+it.Name, fmt.Sprintf("correctly issued document accepted with the anchors in one GenericCertPool, rejected with the same anchors in a CombinedCertPool [%s] %s: %s", it.KS, it.Name, v.real.rejectedByCombined), rp)
 		}
 		if !v.real.accept && (v.genuine || it.Class == "genuine") {
 			key := "C09:rejects-genuine:" + it.Name
